@@ -435,6 +435,17 @@ func SamePriv(a, b *secp256k1.PrivateKey) bool { return a.Key.Equals(&b.Key) }
 func SamePub(a, b *secp256k1.PublicKey) bool   { return a.IsEqual(b) }
 func BytesEq(a, b []byte) bool                 { return string(a) == string(b) }
 
+// NegPub returns the negated point (the compressed encoding with its parity bit flipped)
+func NegPub(a *secp256k1.PublicKey) *secp256k1.PublicKey {
+	b := a.SerializeCompressed()
+	b[0] ^= 1
+	n, err := secp256k1.ParsePubKey(b)
+	if err != nil {
+		panic(err)
+	}
+	return n
+}
+
 // SchnorrSign signs with a deterministic but aux-dependent nonce so that distinct aux values give
 // distinct valid signatures of the same key over the same hash.
 func SchnorrSign(p *secp256k1.PrivateKey, hash []byte, aux uint64) *schnorr.Signature {
